@@ -43,6 +43,17 @@ const ALPHABET: [Ev; 12] = [
 thread_local! {
     /// liquidation fee of the partial staging: 0 = the fixture's 1%, 1 = zero, 2 = symbolic in [0, 10%]
     static FEE_MODE: std::cell::Cell<u8> = std::cell::Cell::new(0);
+    /// partial-liquidation ratio of the partial staging in quarters (1 = 25 %, 4 = exactly 100 %:
+    /// the "partial" arm then takes the whole position)
+    static RATIO_Q: std::cell::Cell<u128> = std::cell::Cell::new(1);
+}
+
+fn ratio100(f: impl Fn()) -> impl Fn() {
+    move || {
+        RATIO_Q.with(|c| c.set(4));
+        f();
+        RATIO_Q.with(|c| c.set(1));
+    }
 }
 
 /// alice 10x long, liquidatable (fully, or partially when `partial`); bob holds the other side
@@ -51,7 +62,7 @@ fn staged(partial: bool) -> Run {
     let d = cfg.d();
     cfg.init_ratio = Uint128::new(d / 10);
     if partial {
-        cfg.partial_ratio = Uint128::new(d / 4);
+        cfg.partial_ratio = Uint128::new(d / 4 * RATIO_Q.with(|c| c.get()));
         cfg.liq_fee = match FEE_MODE.with(|m| m.get()) {
             1 => Uint128::zero(),
             2 => crate::sx::var("liq_fee", 0, d / 10, d / 100),
@@ -376,6 +387,10 @@ pub fn scenarios(seed: u64) -> Vec<Scenario> {
         for partial in [false, true] {
             v.push(sc("C16", Tier::Quick, &format!("c16.sym.{}.{}", n, if partial { "partial" } else { "full" }), dd, 300, 90, dedicated(seq.clone(), partial)));
         }
+        if matches!(n, "liqopens-liq-liqcloses" | "bobtrades-liq-bobtrades" | "liq-bobflattens-bobreopens") {
+            v.push(sc("C16", Tier::Quick, &format!("c16.sym.{}.partial.ratio100", n), "as the .partial scenario with the partial-liquidation ratio at exactly 100 % (the partial arm takes the whole position)", 300, 90, ratio100(dedicated(seq.clone(), true))));
+        }
     }
+    v.push(sc("C16", Tier::Quick, "c16.enum.len3.partial.ratio100", de, 5, 150, ratio100(enumerate(3, 1, 0, true))));
     v
 }
